@@ -46,6 +46,9 @@ def RangeAgg.isUnwrap (r : RangeAgg) : Bool := match r.kind with | .unwrap _ _ =
 
 def VecAgg.grouped (a : VecAgg) : Bool := a.byPrefix.isSome || a.bySuffix.isSome
 
+/-- `planAgg`: the grouping of a vector aggregation; none written = `by ()`, the empty label set -/
+def aggGrouping (a : VecAgg) : Grouping := (chosenGrouping a.byPrefix a.bySuffix).getD ⟨true, []⟩
+
 def MetricQuery.agg? : MetricQuery → Option VecAgg
   | .agg a => some a
   | .topk t => (match t.inner with | .agg a => some a | .range _ => none)
@@ -66,7 +69,7 @@ def takesShortcut (q : MetricQuery) : Bool :=
 
 /-- `matrixFunctionsLabelsIDX != -1` after analysis (resp. after `planMetrics15Shortcut`) -/
 def matrixLabels (q : MetricQuery) : Bool :=
-  (q.rangeAgg.isUnwrap && !takesShortcut q) || (match q.agg? with | some a => a.grouped | none => false)
+  (q.rangeAgg.isUnwrap && !takesShortcut q) || q.agg?.isSome
 
 /-! ### the planned steps (`matrixFunctionsOrder`, resp. the calls of `planMetrics15Shortcut`) -/
 inductive Step
@@ -89,7 +92,7 @@ def orderRange (r : RangeAgg) : List Step :=
    | .lra fn => [Step.lra fn r.durNs]) ++ cmpStep r.cmp
 
 def orderAgg (a : VecAgg) : List Step :=
-  orderRange a.inner ++ [Step.agg a.fn (chosenGrouping a.byPrefix a.bySuffix)] ++ cmpStep a.cmp
+  orderRange a.inner ++ [Step.agg a.fn (some (aggGrouping a))] ++ cmpStep a.cmp
 
 /-- `getFunctionOrder` -/
 def functionOrder : MetricQuery → List Step
@@ -105,7 +108,7 @@ def shortcutRange (r : RangeAgg) : List Step :=
    | .unwrap fn _ => [Step.unwrapFn fn r.durNs (chosenGrouping r.byPrefix r.bySuffix)]) ++ cmpStep r.cmp
 
 def shortcutAgg (a : VecAgg) : List Step :=
-  shortcutRange a.inner ++ [Step.agg a.fn (chosenGrouping a.byPrefix a.bySuffix)] ++ cmpStep a.cmp
+  shortcutRange a.inner ++ [Step.agg a.fn (some (aggGrouping a))] ++ cmpStep a.cmp
 
 /-- the calls `planMetrics15Shortcut` makes, in order -/
 def shortcutOrder : MetricQuery → List Step
@@ -146,7 +149,8 @@ def fingerprintFilter (c : Ctx) (q : LogQuery) (main : Sel) : Sel :=
 def samplesMain (c : Ctx) (q : LogQuery) : Sel :=
   (lineFilters q).foldl (fun s f => s.andWhere [lineClause f]) (fingerprintFilter c q (samplesInit c))
 
-/-- the literal `fmt.Sprintf("%f", float64(d.Milliseconds())/1000)`: whole milliseconds over 1000 -/
+/-- the literal `fmt.Sprintf("%f", float64(d.Milliseconds())/1000)`: whole milliseconds over 1000 (only the metrics_15s shortcut
+    still writes it: its ranges are multiples of 15 s) -/
 def secLit (durNs : Nat) : Expr := .fixedLit (durNs / 1000000) 3
 
 /-- `intDiv(<src>, d) * d as timestamp_ns` -/
@@ -156,12 +160,16 @@ def bucketCol (src : String) (d : Int) : Expr :=
 def countF : Expr := .call "toFloat64" [.call "COUNT" []]
 def bytesF : Expr := .call "toFloat64" [.call "sum" [.call "length" [.raw "_string"]]]
 
-/-- the `switch l.Func` of `LRAPlanner.Process`; `sec` is the divisor literal -/
-def lraValue (fn : RangeFn) (sec : Expr) : Expr :=
+/-- `x * 1000000000 / <range in ns>`: per second of the range, whatever its unit (after the `fix:` of the truncated
+    `Milliseconds()/1000` divisor) -/
+def perSecond (x ns : Expr) : Expr := .divOp (.mulOp x (.int 1000000000)) ns
+
+/-- the `switch l.Func` of `LRAPlanner.Process`; `ns` is the range in nanoseconds (`%d` of `Duration.Nanoseconds()`) -/
+def lraValue (fn : RangeFn) (ns : Expr) : Expr :=
   match fn with
-  | .rate => .divOp countF sec
+  | .rate => perSecond countF ns
   | .countOverTime => countF
-  | .bytesRate => .divOp bytesF sec
+  | .bytesRate => perSecond bytesF ns
   | .bytesOverTime => bytesF
 
 /-- `LRAPlanner.Process` -/
@@ -169,7 +177,7 @@ def lraSel (fn : RangeFn) (durNs : Nat) (withLabels : Bool) (main : Sel) : Sel :
   let main' := main.setCols (renameCol main.cols "string" "_string")
   (Sel.mk [] false
     ([bucketCol "time_series.timestamp_ns" durNs, simpleCol "fingerprint" "fingerprint", emptyStr,
-      .col (lraValue fn (secLit durNs)) "value"] ++
+      .col (lraValue fn (.int durNs)) "value"] ++
       (if withLabels then [.col (.call "any" [.raw "labels"]) "labels"] else []))
     (some (.col (.withRef (.named "agg_a")) "time_series")) [] none none
     [.raw "fingerprint", .raw "timestamp_ns"] none [] none).with_ [(.named "agg_a", main')]
@@ -231,12 +239,12 @@ def planByWithout (c : Ctx) (useTS : Bool) (g : Option Grouping) (s : PState) : 
   | none => s
   | some g => if useTS then ⟨byWithoutTS c s.id g s.sel, s.id + 2⟩ else ⟨byWithoutSimple s.id g s.sel, s.id + 1⟩
 
-/-- the `switch u.Func` of `UnwrapFunctionPlanner.Process` -/
-def unwrapValue (fn : UnwrapFn) (sec : Expr) : Expr :=
+/-- the `switch u.Func` of `UnwrapFunctionPlanner.Process`; `ns` is the range in nanoseconds -/
+def unwrapValue (fn : UnwrapFn) (ns : Expr) : Expr :=
   let v := Expr.raw "unwrap_1.value"
   let t := Expr.raw "unwrap_1.timestamp_ns"
   match fn with
-  | .rate => .divOp (.call "sum" [v]) sec
+  | .rate => perSecond (.call "sum" [v]) ns
   | .sumOT => .call "sum" [v]
   | .avgOT => .call "avg" [v]
   | .maxOT => .call "max" [v]
@@ -249,7 +257,7 @@ def unwrapValue (fn : UnwrapFn) (sec : Expr) : Expr :=
 /-- `UnwrapFunctionPlanner.Process` -/
 def unwrapFnSel (fn : UnwrapFn) (durNs : Nat) (main : Sel) : Sel :=
   (Sel.mk [] false
-    [bucketCol "timestamp_ns" durNs, .raw "fingerprint", emptyStr, .col (unwrapValue fn (secLit durNs)) "value",
+    [bucketCol "timestamp_ns" durNs, .raw "fingerprint", emptyStr, .col (unwrapValue fn (.int durNs)) "value",
      .col (.call "any" [.raw "labels"]) "labels"]
     (some (.withRef (.named "unwrap_1"))) [] none none
     [.raw "fingerprint", .raw "timestamp_ns"] none [] none).with_ [(.named "unwrap_1", main)]
